@@ -155,10 +155,30 @@ def follow_structured(hist, variant=0):
             cur = Obj(sub, cur.geom, basis, period=cur.period, exact=cur.exact, root=cur.root, emap=emap)
         elif op == 'part':
             P = list(h['a'])
-            cur = Obj(cur.topo, cur.geom, cur.basis.discontinuous_at_partition_interfaces(P), period=cur.period, exact=cur.exact, root=cur.root, emap=cur.emap)
+            cur = Obj(cur.topo, cur.geom, partition_basis(cur.basis, P), period=cur.period, exact=cur.exact, root=cur.root, emap=cur.emap)
         else:
             raise ValueError('unknown operation ' + op)
         yield k, cur, alts
+
+
+def partition_basis(parent, P):
+    """parent.discontinuous_at_partition_interfaces(P); the AssertionError of Basis.__init__ for a parent with a
+    MaskedBasis in its ancestry that keeps the same number of functions on every element gets its root cause key
+    (the per-element count of the partition basis simplifies to a constant, that of the coefficients still depends
+    on the element index, and evaluable._equals_simplified calls arrays with different arguments 'certainly different')"""
+    from nutils import function
+    try:
+        return parent.discontinuous_at_partition_interfaces(P)
+    except AssertionError as e:
+        anc, masked = parent, False
+        while anc is not None:
+            masked = masked or isinstance(anc, function.MaskedBasis)
+            anc = getattr(anc, '_parent', None)
+        counts = {len(parent.get_dofs(e)) for e in range(parent.nelems)}
+        if masked and len(counts) == 1:
+            raise Fail('part:masked-parent-uniform-count:raises-AssertionError', 'discontinuous_at_partition_interfaces({}) of a masked basis with {} functions on '
+                       'every element raised {!r} (Basis.__init__: dofs and coefficients "certainly different" in length)'.format(P, counts.pop(), e))
+        raise
 
 
 def connected_alt(cur, p, variant):
@@ -269,8 +289,13 @@ def gauss_degree(obj, pmax):
     return max(2 * pmax, 2)
 
 
-def check_values(pred, tab, obj, fam, pmax):
-    """numeric clauses on the elements: evaluation = coefficient tables, non-zero set = dof list, partition of unity"""
+def check_values(pred, tab, obj, fam, pmax, slack=None):
+    """numeric clauses on the elements: evaluation = coefficient tables, non-zero set = dof list, partition of unity.
+    slack: per element the dofs the model does not decide to be non-zero there (truncated hierarchical bases: the
+    functions of coarser levels, whose truncation may or may not vanish on the element; nutils keeps a truncated
+    polynomial when a coefficient exceeds truncation_tolerance=1e-15, so a mathematically vanishing one survives
+    with round-off sized coefficients).  A listed function that evaluates to zero is accepted there and only there;
+    'any': every listed function may vanish (children of such a basis).  A non-zero function must always be listed."""
     from nutils import function
     topo, basis = obj.topo, obj.basis
     try:
@@ -300,7 +325,10 @@ def check_values(pred, tab, obj, fam, pmax):
             raise Fail('{}:eval-vs-tables'.format(fam), 'on element {} function {} evaluates to {} but get_dofs/get_coefficients describe {}'.format(
                 e, d, v[:, d].tolist(), want[:, d].tolist()), dict(dofs=dofs))
         nonzero = {int(d) for d in numpy.nonzero(abs(v).max(axis=0) > NZ)[0]}
-        if nonzero != set(dofs):
+        listed_zero = set(dofs) - nonzero
+        if slack is not None and nonzero <= set(dofs) and (slack == 'any' or listed_zero <= set(slack[e])):
+            listed_zero = set()
+        if nonzero - set(dofs) or listed_zero:
             raise Fail('{}:nonzero-vs-dofs'.format(fam), 'on element {} the functions {} are non-zero, get_dofs lists {}'.format(e, sorted(nonzero), sorted(set(dofs))))
         if e in unit and abs(v.sum(axis=1) - 1).max(initial=0) > TOL:
             raise Fail('{}:partition-of-unity'.format(fam), 'on element {} the functions sum to {}'.format(e, v.sum(axis=1).tolist()))
@@ -628,11 +656,12 @@ def run_hier(h, pred, derive=None):
                                dict(code=tab, model=_slim(pred)))
         else:
             compare_tables(pred, tab, True, fam, as_sets=True)   # a periodic element may list a function once per image
-        check_values(pred, tab, obj, fam, p)
+        trunc = op.startswith('th-')
+        check_values(pred, tab, obj, fam, p, slack=[set(pred['ed'][e]) - set(pred['edmin'][e]) for e in range(pred['ne'])] if trunc else None)
         check_interfaces(pred, obj, fam, p)
         tables.append(dict(kind='table', t=tab, key=fam))
         if derive is not None:
-            recs, f2 = derived_records(obj, tab, derive, fam, p)
+            recs, f2 = derived_records(obj, tab, derive, fam, p, slack='any' if trunc else None)
             tables += recs
             fails += f2
     except Fail as f:
@@ -709,7 +738,7 @@ def run_multi(h, pred, derive=None):
 # ----------------------------------------------------------------------------------------------------------
 # binding T: MaskedBasis / PrunedBasis / partition basis of a real basis, exported as tables for spec/BasisTables.tla
 
-def derived_records(obj, tab, rng, fam, pmax):
+def derived_records(obj, tab, rng, fam, pmax, slack=None):
     """-> (records for BasisTables, failures): one Mask, one Prune and one Part of the real basis obj"""
     from nutils import function
     recs = []
@@ -743,7 +772,7 @@ def derived_records(obj, tab, rng, fam, pmax):
             if kind == 'prune' and len(arg) == 1 and len(set(tab['ed'][arg[0]])) != len(tab['ed'][arg[0]]) and ctab['nd'] != len(set(tab['ed'][arg[0]])):
                 raise Fail('prune:one-element:parent-dofs-repeat', 'PrunedBasis of the single element {} whose parent dof list {} repeats a dof has {} functions'.format(
                     arg[0], tab['ed'][arg[0]], ctab['nd']))
-            check_values(dict(un=[]), ctab, cobj, fam + ':' + kind, pmax)
+            check_values(dict(un=[]), ctab, cobj, fam + ':' + kind, pmax, slack=slack)
             recs.append(dict(kind=kind, t=parent, arg=arg, c=ctab, key='{}:{}'.format(fam, kind)))
         except Fail as f:
             fails.append((f.key, f.what, dict(parent=parent, op=kind, arg=arg)))
